@@ -600,17 +600,17 @@ def check_C19(run, replay=None):
     compare(run, cases, impl, model, canon_model=canon_model,
             nontrivial=lambda c, iv: not c.endswith(" -"))
     run.coverage.update({
-        "rule": "all 584 histories of length<=3 over the 8 invocations {spec with/without components}x{client}x{api-handler}, "
+        "rule": "all 1884 histories of length<=3 over the 12 invocations {spec with components / without / with a components section that renders nothing}x{client}x{api-handler} (the 584 histories over the first two specs are the property's stated universe), "
                 "each from an empty directory and from one holding 3 user files, plus seeded random longer histories with stale "
                 "goag-named files; a case is non-trivial when its history is non-empty; distinct by (case, observed directory state)",
         "exhaustive": True,
-        "exhaustive_universe": "histories of length <= 3 (584) x {empty dir, dir with user files}",
+        "exhaustive_universe": "histories of length <= 3 (1884, containing the 584 of the stated universe) x {empty dir, dir with user files}",
         "input_distribution": {"history_lengths": meta["history_lengths"], "generator_runs": meta["generator_runs"]},
         "programs": 2,
         "samples": [{"case": cases[i], "impl": impl[i], "model_and_spec": model[i]} for i in sorted({min(5, len(cases) - 1), min(200, len(cases) - 1), len(cases) - 1})],
         "trusted_base": TRUSTED_COMMON + [
             "modelled, not verified: goag.go Generate's write/remove sequence (Model/OutDir.v run); file contents are opaque "
-            "(identified with the sha256 of the eight single-run outputs)",
+            "(identified with the sha256 of the twelve single-run outputs)",
             "os.Remove/O_TRUNC semantics as 'file gone'/'content replaced'",
         ],
     })
@@ -1045,6 +1045,18 @@ def check_json_family(run, prop, replay=None):
         kind = c[:1]
         if kind not in ("E", "U") or im.startswith("SKIP"):
             continue
+        if kind == "E" and prop in ("C06", "C07"):
+            # the same value as a response body through the generated Write (after a large body went the same way): it must be the
+            # encoding of the value and a newline
+            w = parse_kv(im).get("wire")
+            if w is not None:
+                kinds["written-as-response-body"] = kinds.get("written-as-response-body", 0) + 1
+                if w != "same":
+                    f = c.split(" ")
+                    propm.append((i, c, im, mo, [l for l in heads.get(f[1], []) if l.startswith("D ")],
+                                  "the body the response's Write method wrote is not the JSON encoding of the value (what was written: %r)" %
+                                  (bytes.fromhex(w)[:300] if w != "-" else b"")))
+                    continue
         if c.startswith("EK "):
             # an array of items that are a oneOf defined in place: not modelled; the encoding is judged by kin-openapi's
             # validator (support for the search, not a theorem), the round trip against the sent value
